@@ -110,7 +110,9 @@ def h_fn_regex(ctx):
     cache, arr0, dom0 = cache_map(I, '_regex_cache')
     sp.globals['_regex_cache'] = cache
     sp.globals['re.IGNORECASE'] = IGNORECASE
-    sp.exc_table.update({'ExpressionError': 'Exception', 'UnsafeNodeError': 'ExpressionError'})
+    sp.exc_table.update({'ExpressionError': 'Exception', 'UnsafeNodeError': 'ExpressionError', 'FutureWarning': 'Exception'})
+    sp.models['warnings.catch_warnings'] = Func(lambda I_, a, k, n: ('noop_ctx',))          # the compile step may be wrapped so that it warns about nothing
+    sp.models['warnings.filterwarnings'] = Func(lambda I_, a, k, n: None)
 
     def m_compile(I_, args, kwargs, node):
         pat = to_z3(args[0], StrS)
@@ -400,7 +402,11 @@ TRUSTED_BASE = [
     'functions of their arguments (uninterpreted; may raise)',
 ]
 ASSUMPTIONS = ['A7 ast.parse deterministic', 'A8 no reflection/monkey patching in the verified functions (reflective constructs are refused by the calls clause of C03)',
-               'the rules file on disk is not rewritten between a load and the classifications that follow it (a reload re-reads the file)']
+               'the rules file on disk is not rewritten between a load and the classifications that follow it (a reload re-reads the file)',
+               'frames across calls: the callee of a call is resolved syntactically (a bare name to the function of the same module or an imported one, self.m to the '
+               'method of the same class, alias.f to the listed module, x.m on any other receiver to every method called m); a call that does not resolve '
+               '(library code, computed callees) is not followed - its arguments are covered only by the callee tables of C03 and by the history oracle',
+               'MerchantEngine.match returns state that may hold its arguments (not fresh); other results of package functions listed as constructors are fresh']
 EXPLANATION = ('Cache representation invariants INV_E / INV_R / INV_C as pre/postconditions of the real parse_expression, _fn_regex and get_all_rules, get_transforms equal to a cold load '
                '(symbolic execution, z3); frame clauses for every function on the classification path by the syntactic back end; '
                'bounded stand-in (labelled): operation histories versus cold evaluation in a fresh interpreter.')
